@@ -75,6 +75,7 @@ var c10Plain = map[string][]byte{
 	"small": textBytes(41, 300),
 	"big":   append(randBytes(41, 14000), textBytes(42, 6000)...),
 	"other": []byte("pre-existing target content\n"),
+	"large": textBytes(43, 400000),
 }
 
 var c10ContentCache sync.Map
@@ -175,6 +176,9 @@ func c10Scenarios() []C10Scn {
 	add(C10Scn{Name: "d-xz-truncated", Args: []string{"-d", "data.xz"}, Files: []c10File{f("data.xz", "xz-trunc:big")}, Input: "data.xz", Target: "data", Decompress: true, Format: "xz", Plain: "big", InputOK: false, ExpectOK: false})
 	add(C10Scn{Name: "d-xz-truncated-f", Args: []string{"-d", "-f", "data.xz"}, Files: []c10File{f("data.xz", "xz-trunc:big")}, Input: "data.xz", Target: "data", Decompress: true, Format: "xz", Plain: "big", InputOK: false, ExpectOK: false})
 	add(C10Scn{Name: "d-lzma-truncated", Args: []string{"-d", "file.lzma"}, Files: []c10File{f("file.lzma", "lzma-trunc:small")}, Input: "file.lzma", Target: "file", Decompress: true, Format: "lzma", Plain: "small", InputOK: false, ExpectOK: false})
+	// decoded prefix larger than the reader dictionary of preset 0 (256 KiB): output has been
+	// delivered and written before the truncation is met
+	add(C10Scn{Name: "d-lzma-truncated-large", Args: []string{"-d", "-0", "big.lzma"}, Files: []c10File{f("big.lzma", "lzma-trunc:large")}, Input: "big.lzma", Target: "big", Decompress: true, Format: "lzma", Plain: "large", InputOK: false, ExpectOK: false})
 	add(C10Scn{Name: "d-xz-target-exists", Args: []string{"-d", "file.xz"}, Files: []c10File{f("file.xz", "xz:small"), f("file", "plain:other")}, Input: "file.xz", Target: "file", Decompress: true, Format: "xz", Plain: "small", InputOK: true, ExpectOK: false})
 	add(C10Scn{Name: "d-xz-f-target-exists", Args: []string{"-d", "-f", "file.xz"}, Files: []c10File{f("file.xz", "xz:small"), f("file", "plain:other")}, Input: "file.xz", Target: "file", Decompress: true, Format: "xz", Plain: "small", InputOK: true, ExpectOK: true})
 	add(C10Scn{Name: "d-lzma-small", Args: []string{"-d", "file.lzma"}, Files: []c10File{f("file.lzma", "lzma:small")}, Input: "file.lzma", Target: "file", Decompress: true, Format: "lzma", Plain: "small", InputOK: true, ExpectOK: true})
@@ -482,7 +486,7 @@ func runC10(r *core.Run) {
 		// quick: a subset of the scenarios (all of them when thorough)
 		keep := map[string]bool{"z-xz-small": true, "z-xz-big": true, "z-lzma-small": true, "z-xz-k": true, "z-xz-f-target-exists": true, "z-xz-target-exists": true, "z-xz-c": true,
 			"d-xz-small": true, "d-xz-big": true, "d-xz-corrupt": true, "d-xz-truncated": true, "d-xz-truncated-f": true, "d-lzma-truncated": true, "d-xz-f-target-exists": true, "d-lzma-small": true, "d-txz": true,
-			"d-f-unknown-suffix": true, "d-f-no-suffix": true, "d-unknown-suffix": true, "d-xz-c": true, "d-bare-suffix": true, "z-xz-name-with-space": true, "d-xz-k": true}
+			"d-f-unknown-suffix": true, "d-f-no-suffix": true, "d-lzma-truncated-large": true, "d-unknown-suffix": true, "d-xz-c": true, "d-bare-suffix": true, "z-xz-name-with-space": true, "d-xz-k": true}
 		var q []C10Scn
 		for _, s := range scns {
 			if keep[s.Name] {
